@@ -469,6 +469,7 @@ def run_e2e(ctx, model, e2e_harness, pairs, tag):
     cov["kinds"] = {k: sum(1 for r_ in recs if r_["kind"] == k) for k in ("duel", "short", "invalid", "final")}
     cov["expected_sign_histogram"] = {str(k): sum(1 for r_ in judged if r_["expected"] == k) for k in (-1, 0, 1)}
     cov["below_final"] = sum(1 for r_ in judged if r_.get("below_final"))
+    cov["below_final_taller_candidate"] = sum(1 for r_ in judged if r_.get("below_final") and r_.get("taller"))
     cov["atvs"] = sum(P.stats.get("atvs", 0) for P in pairs)
     cov["losing_fork_blocks_of_proof"] = sum(P.stats.get("losing_fork_bops", 0) for P in pairs)
     cov["keystones_crossed_histogram"] = {str(k): sum(1 for P in pairs for v in (P.viewA, P.viewB) if len(v) == k) for k in range(6)}
